@@ -680,7 +680,13 @@ def _o_noncanon_toy(w):
     return True, f"SEC1={want}"
 
 
+def _o_nokey_toy(w):
+    out = impl(w["line"])
+    return out == "ok False False", f"{w['line']} -> {out}"
+
+
 ORACLES = {k: _safe(v) for k, v in {
+    "nokey.toy": _o_nokey_toy,
     "recover.valid_key": _o_recover_valid_key, "noncanon.toy": _o_noncanon_toy,
     "recoverall.valid_keys": _o_recoverall_valid, "rfc6979.ref": _o_rfc6979_ref,
     "chain.toy": _o_chain_toy, "sec1.toy": _o_sec1_toy, "chain.pub": _o_chain_pub,
@@ -896,7 +902,12 @@ def run(ctx):  # noqa: C901, PLR0912, PLR0915
                         ctx.check("recoverall.valid_keys", {"curve": tok, "c": c, "q": q, "k": k},
                                   key="recover-returns-y0-point")
         # verification: every (r, s) in 0..n+1, every key point (+ points that are no key), chosen challenges
-        keys = T.keys + [(T.keys[0][0], (T.keys[0][1] + 1) % ec.p), (0, 0), (1, ec.p), (1, -1)]
+        k0 = T.keys[rng.randrange(len(T.keys))]
+        zero_x = [P for P in T.keys if P[0] == 0][:1]
+        keys = T.keys + [(T.keys[0][0], (T.keys[0][1] + 1) % ec.p), (0, 0), (1, ec.p), (1, -1),
+                         # non-reduced spellings of a valid key: refused by is_on_curve (x: /repo d8821600), never reduced
+                         (k0[0] + ec.p, k0[1]), (k0[0], k0[1] + ec.p), (k0[0] - ec.p, k0[1]), (k0[0], k0[1] - ec.p),
+                         (k0[0] + ec.p, k0[1] + ec.p), (ec.p, (zero_x[0][1] if zero_x else 1)), (-1, k0[1])]
         vlines, skipped, vwit = [], 0, []
         for c in cs:
             m = hx(digest_for(c, ec))
@@ -921,6 +932,10 @@ def run(ctx):  # noqa: C901, PLR0912, PLR0915
                 ctx.oracle("sec1.toy", out == f"ok {want} {want}", f"verify_/assert_as_valid_ -> {out}; SEC1={want}",
                            witness={"oracle": "sec1.toy", "witness": {"curve": tok, "c": c, "Q": list(Q), "r": r, "s": s}},
                            nontrivial=0 < r < n and 0 < s < n)
+            else:
+                # no key (off the curve, y = 0, or a coordinate outside its range): False, never the reduced point's verdict
+                ctx.oracle("nokey.toy", out == "ok False False", f"{ln} -> {out}: a pair that is no public key must be refused",
+                           witness={"oracle": "nokey.toy", "witness": {"line": ln}}, nontrivial=False)
         batch.cases(f"toy.verify[{name}]", vcases, nontrivial=lambda ln, out: True)
         ctx.exhaustive_streams.append(f"toy.verify[{name}]")
         ctx.count("two_torsion_K_oracle_only", name, skipped)
@@ -1050,6 +1065,8 @@ def run(ctx):  # noqa: C901, PLR0912, PLR0915
             for (qq, r, s) in [(Q, sig.r, sig.s), (Q, sig.r, ec.n - sig.s), (Q, sig.r, sig.s + 1), (Q, sig.r + 1, sig.s),
                                (Q2, sig.r, sig.s), (Q, 0, sig.s), (Q, sig.r, 0), (Q, ec.n, sig.s), (Q, sig.r, ec.n),
                                (Q, sig.r + ec.n, sig.s), ((Q[0], ec.p - Q[1]), sig.r, sig.s), ((Q[0], Q[1] + 1), sig.r, sig.s),
+                               ((Q[0] + ec.p, Q[1]), sig.r, sig.s), ((Q[0], Q[1] + ec.p), sig.r, sig.s),
+                               ((Q[0] - ec.p, Q[1]), sig.r, sig.s), ((ec.p, Q[1]), sig.r, sig.s), ((-1, Q[1]), sig.r, sig.s),
                                (Q, -sig.r, sig.s)]:
                 lines.append(f"ecdsa.verify_ {name} {hf} {hx(m)} {qq[0]} {qq[1]} {r} {s}")
             lines.append(f"ecdsa.verify_ {name} {hf} {hx(m[:-1])} {Q[0]} {Q[1]} {sig.r} {sig.s}")
